@@ -318,3 +318,46 @@ V("V79", "accessor recompute guard rewritten as `is None and compute` (equivalen
 B("B80", "C16-P5", [(SYM, "    bn_reduced = sd.node_percolated_network(node_id, compute=True)\n    graph_reduced = AsynchronousGraph(bn_reduced)\n    symbolic_ctx",
                      "    bn_reduced = sd.node_data(node_id)[\"percolated_network\"]\n    graph_reduced = AsynchronousGraph(bn_reduced)\n    symbolic_ctx")],
   "compute_attractors_symbolic reads the reclaimed network field directly")
+
+
+# ------------------------------------------------------------------------------------------ C13
+B("B37", "C13-WHILE", [(SYM, '''    if sd.config["debug"]:
+        print(f"[{node_id}] > Reachability completed with {reach_set}.")
+''', '''    rounds = 0
+    while rounds < len(saturated_vars):
+        if reach_set.is_empty():
+            rounds += 1
+    if sd.config["debug"]:
+        print(f"[{node_id}] > Reachability completed with {reach_set}.")
+''')], "new while loop whose counter advances on one path only")
+B("B38", "C13-WHILE", [(CAND, "            iterations = 2 * iterations\n", "")], "simulation budget never grows")
+B("B39", "C13-WHILE", [(SPACE, '''                    # but we also don't want to change the value.
+                    candidates.remove(var)''', '''                    # but we also don't want to change the value.
+                    done = False''')], "percolate_space_strict: flag cleared without removing the variable")
+B("B41", "C13-REC", [(SCC, '''                next_level = next_level | set(sd.node_successors(node_id, compute=True))
+                continue
+
+            attach_at_list''', '''                next_level = next_level | set(sd.node_successors(node_id, compute=True))
+
+            attach_at_list''')], "single source SCC no longer short-circuits: unbounded recursion")
+B("B15", "C13-WHILE", [(CAND, "            if len(candidate_states_2) < len(candidate_states):", "            if len(candidate_states_2) <= len(candidate_states):")],
+  "greedy optimisation accepts ties: can flip back and forth forever")
+B("B81", "C13-WHILE", [(DFS, "        s = successors.pop()\n        seen.add(s)\n", "        s = successors.pop()\n")], "DFS schedules nodes without recording them")
+B("B82", "C13-WHILE", [(SYM, '''                        all_done = False  # The main loop should continue.
+                        reach_set = updated''', '''                        reach_set = updated'''), (SYM, '''                if not successors.is_empty():
+                    updated = reach_set.union(successors)''', '''                if not successors.is_empty():
+                    all_done = False
+                    updated = reach_set.union(successors)''')], "all_done cleared although the forward step may be declined")
+B("B83", "C13-WHILE", [(MIN, '''            if successors[-1] in seen:
+                # Everything in seen is expanded, so no need to skip it.
+                successors.pop()
+                continue''', '''            if successors[-1] in seen:
+                # Everything in seen is expanded, so no need to skip it.
+                continue''')], "inner successor loop no longer pops seen nodes")
+B("B84", "C13-WHILE", [(BLK, '''            if sd.node_data(node)["expanded"]:
+                # We re-discovered a previously expanded node.
+                continue
+
+''', '')], "block expansion reprocesses expanded nodes")
+V("V85", "DFS loop test written as truthiness", edits=[(DFS, "    while len(stack) > 0:", "    while stack:")])
+V("V86", "debug print added inside loops", edits=[(BFS, "            for s in successors:\n                if s not in seen:", "            for s in successors:\n                if sd.config[\"debug\"]:\n                    print(s)\n                if s not in seen:")])
